@@ -3,6 +3,7 @@
      (inline NEXT PROC (ARGS))       -> "(stmts...)" | "none"      DoInline model, binders renamed from id NEXT on
      (inline0 PROC (ARGS))           -> "(stmts...)" | "none"      window binding + SubstArgs only
      (validate (BLOCK) CALLSTMT)     -> "certified" | "strict" | "no <reason>"
+     (inlineok PROC (ARGS))          -> "ok" | "no"                side conditions of theorem C05_inline
    Grammar: harness/export.py (the only producer); parsing/printing code shared with coq/Core/driver.ml. *)
 open Unify_model
 
@@ -161,6 +162,8 @@ let () =
               print_string (slist (do_inline (sym n) (proc p) (List.map expr (lst args))) ^ "\n")
           | L [A "inline0"; p; args] ->
               print_string (slist (inline_call (proc p) (List.map expr (lst args))) ^ "\n")
+          | L [A "inlineok"; p; args] ->
+              print_string (if inline_ok (proc p) (List.map expr (lst args)) then "ok\n" else "no\n")
           | L [A "elim"; p; args] ->
               print_string (slist (elim_ws (inline_call (proc p) (List.map expr (lst args)))) ^ "\n")
           | L [A "validate"; blk; c] ->
